@@ -36,6 +36,9 @@ type clockSpec struct {
 	At    int64 `json:"at,omitempty"`
 	Extra int64 `json:"extra,omitempty"`
 	OK    bool  `json:"ok"`
+	// Err (when !OK): which error the clock reports. Errors of a clock are its own business: one that wraps a
+	// context error (a clock that bounds its work with a private context) must not be mistaken for the round's end.
+	Err int `json:"err,omitempty"` // 0 plain; 1 wraps context.Canceled; 2 wraps context.DeadlineExceeded; 3 os.ErrDeadlineExceeded; 4 the bare context.DeadlineExceeded
 }
 
 type rcase struct {
@@ -65,6 +68,16 @@ func (c *clk) MeasureClockOffset(ctx context.Context) (time.Time, time.Duration,
 		time.Sleep(time.Duration(c.spec.Extra))
 	}
 	if !c.spec.OK {
+		switch c.spec.Err {
+		case 1:
+			return time.Time{}, 0, fmt.Errorf("scripted clock: private context: %w", context.Canceled)
+		case 2:
+			return time.Time{}, 0, fmt.Errorf("scripted clock: private timeout: %w", context.DeadlineExceeded)
+		case 3:
+			return time.Time{}, 0, os.ErrDeadlineExceeded
+		case 4:
+			return time.Time{}, 0, context.DeadlineExceeded
+		}
 		return time.Time{}, 0, errors.New("scripted error")
 	}
 	return time.Now(), time.Duration(c.tag), nil
@@ -292,6 +305,9 @@ func genCase(t *rapid.T) rcase {
 	n := rapid.OneOf(rapid.IntRange(0, 12), rapid.IntRange(1, 4)).Draw(t, "n")
 	for i := 0; i < n; i++ {
 		s := clockSpec{OK: rapid.IntRange(0, 3).Draw(t, "ok") > 0}
+		if !s.OK {
+			s.Err = rapid.SampledFrom([]int{0, 0, 1, 2, 3, 4}).Draw(t, "errkind")
+		}
 		kinds := []int{cAt, cAt, cAt, cOnCancel, cAfterCanc}
 		if c.Stop == "none" {
 			kinds = []int{cAt}
@@ -319,7 +335,7 @@ func genCase(t *rapid.T) rcase {
 	return c
 }
 
-var rec = ev.New("c16/collect", "rapid: 0..12 scripted reference clocks inside a synctest bubble (virtual time), stop by deadline D, manual cancellation at D, or none; per clock a completion time from {0, D-1, D, D+1, 3D, range}, 'returns when cancelled', or 'returns Extra after cancellation', success (unique tag) or error; result slice pre-filled with sentinels; optional second collection on the same collector at a generated instant, followed by 0..3 further attempts 1 ns apart; optional wrong-length slice; built with -race. Oracle: return instant == min(stop, latest completion) exactly; front of the slice = each in-time success once (those completing exactly at the stop instant optional), rest untouched, unchanged after late results arrive; bubble exit finds no blocked goroutine; every overlapping attempt refused with the 'in progress' panic (also after an earlier attempt was refused), later ones work; wrong length refused. Non-trivial: >= 1 clock completing at/after the stop instant, or an overlapping second call; distinct by case hash")
+var rec = ev.New("c16/collect", "rapid: 0..12 scripted reference clocks inside a synctest bubble (virtual time), stop by deadline D, manual cancellation at D, or none; per clock a completion time from {0, D-1, D, D+1, 3D, range}, 'returns when cancelled', or 'returns Extra after cancellation', success (unique tag) or error (plain, wrapping context.Canceled / context.DeadlineExceeded, os.ErrDeadlineExceeded); result slice pre-filled with sentinels; optional second collection on the same collector at a generated instant, followed by 0..3 further attempts 1 ns apart; optional wrong-length slice; built with -race. Oracle: return instant == min(stop, latest completion) exactly; front of the slice = each in-time success once (those completing exactly at the stop instant optional), rest untouched, unchanged after late results arrive; bubble exit finds no blocked goroutine; every overlapping attempt refused with the 'in progress' panic (also after an earlier attempt was refused), later ones work; wrong length refused. Non-trivial: >= 1 clock completing at/after the stop instant, or an overlapping second call; distinct by case hash")
 
 func TestPropCollect(t *testing.T) {
 	vt.Check(t, 15000, 150000, func(t *rapid.T) {
